@@ -193,3 +193,53 @@ Proof.
   - intros [l [Hin [E [M1 M4]]]]. exists l. split; [assumption|]. apply filter_In. split; [assumption|].
     apply matches_iff. cbn. repeat split; auto. apply Z.leb_le; exact M4.
 Qed.
+
+(* ------------------------------------------------------------------ store.go: the composite queries *)
+(* each query function of store.go concatenates the locks of one or two iterators; under the invariant it never fails and
+   returns exactly the locks of those iterators (which [iterate_exact] characterises) *)
+Ltac q_ok I :=
+  repeat match goal with
+  | |- context [locks_of_ids ?s (iterate (s_refs ?s) ?u ?k ?a ?d ?p)] =>
+      let ls := fresh "ls" in let E1 := fresh "E" in let E2 := fresh "E" in
+      destruct (iterate_locks_ok s u k a d p I) as [ls [E1 E2]]; rewrite E1; cbn [bind]
+  end.
+
+Lemma store_queries_ok : forall s a dn d t, Inv s ->
+  (exists ls, q_account_locked_past_time s a t = Ok ls /\
+     map l_id ls = it_acc_longer_duration s false a (past_duration s t) ++ it_acc_after_time s a t) /\
+  (exists ls, q_account_locked_past_time_denom s a dn t = Ok ls /\
+     map l_id ls = it_acc_longer_duration_denom s false a dn (past_duration s t) ++ it_acc_after_time_denom s a dn t) /\
+  (exists ls, q_account_unlocked_before_time s a t = Ok ls /\
+     map l_id ls = if t <? s_now s then it_acc_before_time s a t
+                   else it_acc_shorter_duration s false a (t - s_now s) ++ it_acc_before_time s a t) /\
+  (exists ls, q_account_locked_longer_duration s a d = Ok ls /\
+     map l_id ls = it_acc_longer_duration s false a d ++ it_acc_longer_duration s true a d) /\
+  (exists ls, q_account_locked_duration s a d = Ok ls /\
+     map l_id ls = it_acc_duration s true a d ++ it_acc_duration s false a d) /\
+  (exists ls, q_account_locked_longer_duration_denom s a dn d = Ok ls /\
+     map l_id ls = it_acc_longer_duration_denom s false a dn d ++ it_acc_longer_duration_denom s true a dn d) /\
+  (exists ls, q_account_locked_duration_not_unlocking_only s a dn d = Ok ls /\
+     map l_id ls = it_acc_duration_denom s false a dn d) /\
+  (exists ls, q_locks_past_time_denom s dn t = Ok ls /\
+     map l_id ls = it_lock_longer_duration_denom s false dn (past_duration s t) ++ it_lock_after_time_denom s dn t) /\
+  (exists ls, q_locks_longer_than_duration_denom s dn d = Ok ls /\
+     map l_id ls = it_lock_longer_duration_denom s false dn d ++ it_lock_longer_duration_denom s true dn d) /\
+  (exists ls, q_period_locks s = Ok ls /\ map l_id ls = it_lock s false ++ it_lock s true) /\
+  (exists ls, q_account_period_locks s a = Ok ls /\ map l_id ls = it_acc s false a ++ it_acc s true a) /\
+  (exists ls, q_account_locked_coins s a = Ok ls /\ map l_id ls = it_acc s false a ++ it_acc_after_time s a (s_now s)) /\
+  (exists ls, q_account_unlockable_coins s a = Ok ls /\ map l_id ls = it_acc_before_time s a (s_now s)) /\
+  (exists ls, q_account_unlocking_coins s a = Ok ls /\ map l_id ls = it_acc_after_time s a (s_now s)) /\
+  (exists ls, q_module_locked_coins s = Ok ls /\ map l_id ls = it_lock s false ++ it_lock_after_time s (s_now s)).
+Proof.
+  intros s a dn d t I.
+  repeat split;
+    unfold q_account_locked_past_time, q_account_locked_past_time_denom, q_account_unlocked_before_time,
+      q_account_locked_longer_duration, q_account_locked_duration, q_account_locked_longer_duration_denom,
+      q_account_locked_duration_not_unlocking_only, q_locks_past_time_denom, q_locks_longer_than_duration_denom,
+      q_period_locks, q_account_period_locks, q_account_locked_coins, q_account_unlockable_coins, q_account_unlocking_coins,
+      q_module_locked_coins,
+      it_acc_longer_duration, it_acc_after_time, it_acc_longer_duration_denom, it_acc_after_time_denom, it_acc_before_time,
+      it_acc_shorter_duration, it_acc_duration, it_acc_duration_denom, it_lock_longer_duration_denom, it_lock_after_time_denom,
+      it_lock, it_acc, it_lock_after_time;
+    try (destruct (t <? s_now s)); q_ok I; eexists; (split; [reflexivity|]); rewrite ?map_app; congruence.
+Qed.
